@@ -82,6 +82,7 @@ func decodeCollCase(tier string, idx int, tape *Tape) *collCase {
 		return TypeRef(NT + tape.Choose(StCfg, types))
 	}
 	var plainTypes, depTypes []TypeRef
+	var groupsUsed []Ident
 	newReg := func() *Reg {
 		r := &Reg{ID: nregs}
 		nregs++
@@ -140,8 +141,14 @@ func decodeCollCase(tier string, idx int, tape *Tape) *collCase {
 			switch tape.Choose(StCfg, 6) {
 			case 0:
 				r.Name = keyPool[tape.Choose(StCfg, 2)]
-			case 1:
+			case 1, 3:
 				r.Group = groupPool[tape.Choose(StCfg, 2)]
+				if len(groupsUsed) > 0 && tape.Choose(StCfg, 3) != 0 {
+					// another member of a group that already has members
+					gu := groupsUsed[tape.Choose(StCfg, len(groupsUsed))]
+					r.Outs[0].T, r.Outs[0].Concrete, r.Group = gu.T, gu.T, gu.Group
+				}
+				groupsUsed = append(groupsUsed, Ident{T: r.Outs[0].T, Group: r.Group})
 			case 2:
 				r.As = []int{tape.Choose(StCfg, 2)}
 			}
@@ -538,6 +545,34 @@ func runCollCase(c *collCase, tape *Tape, out *RunOut) []Violation {
 			check(Ident{T: t})
 			for _, k := range keyPool[:2] {
 				check(Ident{T: t, Key: k})
+			}
+			// "a group accumulates members in call order"
+			for _, g := range groupPool {
+				gk := Ident{T: t, Group: g}
+				if mm.tainted(gk) {
+					continue
+				}
+				vals, err := bp.p.GetGroup(t.RT(), g)
+				var want, got []string
+				for _, p := range mm.groups[gk] {
+					want = append(want, fmt.Sprintf("r%d", p.Reg))
+				}
+				for _, v := range vals {
+					if in, ok := v.(inster); ok && v != nil {
+						got = append(got, fmt.Sprintf("r%d", in.inst().Reg))
+					} else {
+						got = append(got, "?")
+					}
+				}
+				if err != nil {
+					if len(want) > 0 && !anyTouched(mm) {
+						add("C17.queries", "group-resolve", "%s: group %s@%s has members %v but resolving it failed: %v", when, t, g, want, firstLine(err))
+					}
+					continue
+				}
+				if strings.Join(got, ",") != strings.Join(want, ",") {
+					add("C17.queries", "group-order", "%s: group %s@%s resolves to members %v, registered (in call order) %v", when, t, g, got, want)
+				}
 			}
 		}
 	}
